@@ -50,10 +50,15 @@ class P(param.Parameterized):
     s = param.Selector(objects=[], check_on_set=False)
     y = param.Integer(default=0)
     n2 = param.Integer(default=0)
+    nb = param.Integer(default=0)
 
     @param.depends('x', watch=True)
     def _m(self):
         self.n += 1
+
+    @param.depends('x:bounds', watch=True)
+    def _mb(self):              # a dependency on a Parameter attribute ('name:attribute' spec)
+        self.nb += 1
 
     @param.depends('x', 'y', watch=True)
     def _m2(self):
@@ -162,7 +167,10 @@ def prog(subdep: bool, mech: int, helper: bool, pre1: int, pv1: int, post1: int,
         elif o == 1:
             me.l.append(v)
         elif o == 2:
+            nb0, nbo = me.nb, other.nb
+            changed = me.param.x.bounds != (-9, 9 + abs(v))
             me.param.x.bounds = (-9, 9 + abs(v))
+            check('C17.deps_work', me.nb == nb0 + (1 if changed else 0) and other.nb == nbo, dict(inf, slot_dependency=True, calls=me.nb - nb0))
         elif o == 3:
             ch = me.sub.v != v
             me.sub.v = v
